@@ -1004,4 +1004,9 @@ NoError == \A t \in Threads : L[t].pc[1] # "error"
 \* (C07/C09) progress without the back-stop: in configurations with AllowTimeout = FALSE the
 \* deadlock check (CHECK_DEADLOCK TRUE) is the property; Terminated keeps a finished run alive.
 Progress == <>AllDone
+\* ================================================================== refinement
+\* ThreadPool.tla implements the abstraction its clients are specified over (PoolAbs.tla) under this mapping
+Abs == INSTANCE PoolAbs WITH Tasks <- TaskIds, alive <- S.alive, sub <- G.sub, ran <- G.ran
+Refines == Abs!Spec
+AbsInv == Abs!ExactlyOnceSoFar /\ Abs!NothingPendingWhenGone
 ==============================================================================
